@@ -106,6 +106,9 @@ func (s *scheduler) enabled(t *schedThread) bool {
 	}
 	switch t.point {
 	case "lock.before":
+		if s.modelBroken {
+			return true
+		}
 		_, held := s.fileLock[arg]
 		return !held
 	case "mem.lock.before":
@@ -129,7 +132,7 @@ func (s *scheduler) memBlocked(t *schedThread) bool {
 	if t.finished || t.extBlock {
 		return false
 	}
-	return (t.point == "mem.lock.before" || t.point == "mem.rlock.before") && !s.enabled(t)
+	return (t.point == "mem.lock.before" || t.point == "mem.rlock.before" || t.point == "lock.before") && !s.enabled(t)
 }
 
 // applyPoint updates the lock model when a thread *leaves* a point (is resumed from it) or reaches one.
